@@ -71,3 +71,45 @@ def run(ctx):
     ctx.cov["strict_conformance"] = "accepted" if ok2 else "SPEC-DRIFT"
     if not ok2:
         vlib.log("SPEC-DRIFT property=%s: recorded traces are not behaviours of LinkTable.tla (advisory)" % prop)
+    if prop == "C06":
+        quic_links(ctx)
+
+
+def quic_links(ctx):
+    """C06, transport half: QuicLinks.tla (address table of the quic transport composed with the controller registry) model-checked;
+    its histories (fn/LinkHist table) replayed on a real pconn transport + real controller; QuicLinksMon.tla judges the registry"""
+    ctx.tlc("QuicLinks", cfg="MC_QuicLinks.cfg", timeout=600)
+    cases, r = ctx.tlc_table("fn/LinkHist", env={"TIER": ctx.tier})
+    cpath = os.path.join(ctx.tmp, "LinkHist_cases.json")
+    opath = os.path.join(ctx.tmp, "links_trace.ndjson")
+    ctx.go_run("quicnet", ["-mode", "links", "-cases", cpath, "-out", opath], timeout=3000)
+    evs = vlib.read_ndjson(opath)
+    if len([e for e in evs if e["e"] == "reset"]) != len(cases):
+        raise vlib.Infra("quicnet links: traces missing")
+    if any(e["e"] == "ev" and not e["ok"] for e in evs):
+        raise vlib.Infra("quicnet links: a remote endpoint could not connect (harness problem)")
+    ctx.traces += len(cases)
+    ctx.evaluations += len([e for e in evs if e["e"] == "obs"])
+    ctx.cov["address_histories"] = len(cases)
+    for c in cases:
+        ks = [(e["k"], e["a"], e["i"]) for e in c["hist"]]
+        if any(ks[j][0] == "conn" and ks[j + 1][0] == "conn" and ks[j][1] == ks[j + 1][1] for j in range(len(ks) - 1)):
+            ctx.nontrivial.add("addr:" + json.dumps(ks))
+    ctx.sample({"address history": cases[-1]["hist"], "last observation": evs[-1]})
+    ctx.rule += ("; transport half: every history of <= 3 connect / vanish-silently / close events of remote endpoints (address x identity; thorough: two addresses) "
+                 "against a real pconn transport + controller over an in-memory packet network, registry read after each event; non-trivial = a session usurping "
+                 "the link registered for its address")
+    ok, r = ctx.tlc_validate("QuicLinksMon", "QuicLinksMon.cfg", opath, env={"PROP": "C06"}, dfs=False)
+    if not ok:
+        if r.violated == "NoViolation":
+            tail = r.out[r.out.rfind("/\\ bad ="):]
+            bads = re.findall(r'<<\s*"(C\d+)",\s*"([^"]*)",\s*(-?\d+)\s*>>', tail, re.S)
+            seen = set()
+            for b in bads:
+                if b[1] in seen:
+                    continue
+                seen.add(b[1])
+                hist = cases[int(b[2])]["hist"] if 0 <= int(b[2]) < len(cases) else None
+                ctx.violation("C06:quic:%s" % b[1], "%s (address history %s)" % (b[1], [(e["k"], e["a"], e["i"]) for e in hist] if hist else "?"), {"history": hist})
+        else:
+            raise vlib.Infra("QuicLinksMon did not consume the trace\n" + r.out[-2000:])
